@@ -11,8 +11,10 @@ PROPERTY_ID = 'C16'
 LEVEL = 'exploration'
 RULE = ('histories of export / re-export (another object at an exported path) / unexport on DBusObjectHandler (recording '
         'connection) over a path pool built to contain the traps: / /a /a/b /a/bc /a/b/c /a/b/c/d /ab /a_b /b plus two '
-        'never-exported paths; objects carry 1-2 generated interfaces with readable, read-write and write-only '
-        'properties assigned before export. After EVERY step and for EVERY pool path three parsed messages are sent: an '
+        'never-exported paths; objects are of three classes (one interface; two interfaces incl. a non-emitting typed '
+        'property; a subclass that adds a property to the inherited interface and brings a second interface) with '
+        'readable, read-write and write-only properties assigned before export; a path that was unexported is exported '
+        'again either with a fresh object or with the very instance that was there before. After EVERY step and for EVERY pool path three parsed messages are sent: an '
         'ordinary call, Introspect, GetManagedObjects. enum: all histories to 4 (quick) / 5 (thorough) steps over a '
         '6-path pool, exhaustive; random: to 30 steps over the full pool. oracle (set model): ordinary call is '
         'UnknownObject iff the path is not exported; Introspect lists exactly the first path segments of exported '
@@ -39,20 +41,28 @@ class _Conn:
 
 
 def _make_class(variant):
+    """0: one interface; 1: two interfaces; 2: a subclass of 0 that adds a property to the *inherited* interface and
+    brings a second interface of its own (one interface populated at two levels of the class hierarchy)."""
     from txdbus import interface as I
     from txdbus import objects as O
     i1 = I.DBusInterface('org.verif.T1', I.Method('Poke', '', 's'),
                          I.Property('Ro', 's'), I.Property('Rw', 'i', writeable=True),
-                         I.Property('Wo', 's', readable=False, writeable=True), noRegister=True)
-    ifs = [i1]
-    ns = {'Ro': O.DBusProperty('Ro'), 'Rw': O.DBusProperty('Rw'), 'Wo': O.DBusProperty('Wo'),
-          'dbus_Poke': lambda self: 'poked'}
+                         I.Property('Wo', 's', readable=False, writeable=True), I.Property('Late', 's'), noRegister=True)
+    i2 = I.DBusInterface('org.verif.T2', I.Property('Num', 'u'), I.Property('Quiet', 'q', emitsOnChange=False),
+                         noRegister=True)
+    base_ns = {'Ro': O.DBusProperty('Ro'), 'Rw': O.DBusProperty('Rw'), 'Wo': O.DBusProperty('Wo'),
+               'dbus_Poke': lambda self: 'poked', 'dbusInterfaces': [i1]}
+    if variant == 0:
+        return type('Tree0', (O.DBusObject,), base_ns)
     if variant == 1:
-        i2 = I.DBusInterface('org.verif.T2', I.Property('Num', 'u'), noRegister=True)
-        ifs.append(i2)
+        ns = dict(base_ns)
         ns['Num'] = O.DBusProperty('Num')
-    ns['dbusInterfaces'] = ifs
-    return type('Tree%d' % variant, (O.DBusObject,), ns)
+        ns['Quiet'] = O.DBusProperty('Quiet')
+        ns['dbusInterfaces'] = [i1, i2]
+        return type('Tree1', (O.DBusObject,), ns)
+    base = type('Tree2Base', (O.DBusObject,), base_ns)
+    return type('Tree2', (base,), {'Late': O.DBusProperty('Late', 'org.verif.T1'), 'Num': O.DBusProperty('Num'),
+                                   'Quiet': O.DBusProperty('Quiet'), 'dbusInterfaces': [i2]})
 
 
 def _new_obj(classes, path, variant, stamp):
@@ -60,8 +70,11 @@ def _new_obj(classes, path, variant, stamp):
     o.Ro = 'ro-%s-%d' % (path, stamp)
     o.Rw = stamp
     o.Wo = 'secret'
-    if variant == 1:
+    if variant >= 1:
         o.Num = stamp + 1000
+        o.Quiet = stamp + 7
+    if variant == 2:
+        o.Late = 'late-%d' % stamp
     return o
 
 
@@ -86,8 +99,10 @@ def _call(MSG, h, conn, path, iface, member, serial):
 def _expected_props(model_obj):
     variant, stamp, path = model_obj
     want = {'org.verif.T1': {'Ro': ['s', 'ro-%s-%d' % (path, stamp)], 'Rw': ['i', stamp]}, PROPS: {}}
-    if variant == 1:
-        want['org.verif.T2'] = {'Num': ['u', stamp + 1000]}
+    if variant >= 1:
+        want['org.verif.T2'] = {'Num': ['u', stamp + 1000], 'Quiet': ['q', stamp + 7]}
+    if variant == 2:
+        want['org.verif.T1']['Late'] = ['s', 'late-%d' % stamp]
     return want
 
 
@@ -96,7 +111,7 @@ def run_history(case):
     from txdbus import objects as O
     out = []
     try:
-        classes = {0: _make_class(0), 1: _make_class(1)}
+        classes = {0: _make_class(0), 1: _make_class(1), 2: _make_class(2)}
         conn = _Conn()
         h = O.DBusObjectHandler(conn)
         model = {}     # path -> (variant, stamp, path)
@@ -109,7 +124,7 @@ def run_history(case):
             path = case['pool'][op[1] % len(case['pool'])]
             del conn.sent[:]
             if kind == 'export':
-                variant = op[2] % 2
+                variant = op[2] % 3
                 stamp = si
                 if len(op) > 3 and op[3] and path in parked and path not in model:
                     # the very instance that was exported and unexported before goes back
@@ -151,7 +166,7 @@ def run_history(case):
                 if len(sigs) == 1:
                     try:
                         d = R.decode_message(sigs[0].rawMessage)
-                        want = {'org.verif.T1', PROPS} | ({'org.verif.T2'} if variant == 1 else set())
+                        want = {'org.verif.T1', PROPS} | ({'org.verif.T2'} if variant >= 1 else set())
                         ok = (d['type'] == 4 and d['fields'].get(3) == 'InterfacesRemoved' and d['body'][0] == path
                               and set(d['body'][1]) == want and len(d['body'][1]) == len(want))
                     except Exception:
@@ -202,7 +217,7 @@ def run_history(case):
                             out.append(Disc('introspect.children:%s' % ('extra' if set(got) - set(kids) else 'missing'),
                                             'path %s exported=%r: expected children %r got %r' % (p, sorted(exported), kids, got)))
                         if got is not None and p in exported:
-                            want_if = {'org.verif.T1', PROPS} | ({'org.verif.T2'} if model[p][0] == 1 else set())
+                            want_if = {'org.verif.T1', PROPS} | ({'org.verif.T2'} if model[p][0] >= 1 else set())
                             if not want_if <= set(ifn):
                                 out.append(Disc('introspect.interfaces', 'expected %r within %r' % (sorted(want_if), ifn)))
                         if got is not None and p not in exported and [i for i in ifn]:
@@ -308,7 +323,7 @@ def enum_histories(tier):
                         break
                     cur.discard(i)
             if ok:
-                yield {'pool': SMALL, 'ops': [[k, i, (i + idx) % 2] for idx, (k, i) in enumerate(seq)]}
+                yield {'pool': SMALL, 'ops': [[k, i, (i + idx) % 3] for idx, (k, i) in enumerate(seq)]}
                 seen, again = set(), False
                 for k, i in seq:
                     if k == 'unexport':
@@ -317,7 +332,7 @@ def enum_histories(tier):
                         again = True
                 if again:
                     # the same history with the unexported instance itself exported again (not a fresh object)
-                    yield {'pool': SMALL, 'ops': [[k, i, (i + idx) % 2, 1] for idx, (k, i) in enumerate(seq)]}
+                    yield {'pool': SMALL, 'ops': [[k, i, (i + idx) % 3, 1] for idx, (k, i) in enumerate(seq)]}
 
 
 @st.composite
@@ -325,7 +340,7 @@ def random_history(draw, tier):
     ops = []
     for _ in range(draw(st.integers(1, 30))):
         ops.append([draw(st.sampled_from(['export', 'export', 'unexport'])), draw(st.integers(0, len(POOL) - 1)),
-                    draw(st.integers(0, 1)), draw(st.integers(0, 1))])
+                    draw(st.integers(0, 2)), draw(st.integers(0, 1))])
     return {'pool': POOL, 'ops': ops}
 
 
